@@ -65,6 +65,13 @@ CLAIMED = {
         "decides pattern completeness: dense entries outside the pattern are identically zero), sentinels survive, index arrays / nonZeros / compression unchanged.",
    note=TB + "; groups SO2,SO3,SE2,SE3,C1,Bundle<SO3,V3>,Bundle<SE2,Bundle<SO2,V1>>; offsets {0,1} quick, {0,1,4} thorough; dense routines are C04/C05.",
    ref="DESIGN 4/C19", technique="symbolic execution of LLVM IR (sparse containers concrete, values symbolic) + SMT"),
+ "C18": dict(
+   text="Footprint check replacing schedules: shared const objects (group elements, SubManifold, AnyManifold, std::vector<SO3>, Spline<3,SE2>, BSpline<3,SO3>, sparse patterns) "
+        "are built once, then every const operation is executed symbolically (evaluation time symbolic over the whole real line); the exact store set of every path must not "
+        "touch any object that existed before the call except the thread-private output and guard-protected once-only initialisation. Disjoint write sets + read-only shared "
+        "data => every interleaving of any number of threads is race free and yields sequential results.",
+   note=TB + "; __cxa_guard runtime and hardware memory model trusted; diff::dr/minimize/fit on private data are covered by their own checks' write sets, not here.",
+   ref="DESIGN 4/C18", technique="symbolic execution of LLVM IR with exact write-set tracking (footprint non-interference)"),
 }
 NA = {}
 checks = []
